@@ -481,7 +481,8 @@ class C11(PropBase):
         "Gallina skeleton the holes are spliced into are trusted to say the same thing; reuses the C08 range-table model",
         "names are modelled as integers, rendered as letter + 4 digits so that String order = integer order (PublicSymbol's derived Ord)",
         "std slice::binary_search_by modelled as the Rust >= 1.82 halving loop; Vec::sort as a stable insertion sort; HashMap as insert log",
-        "extraction: ExtrOcamlBasic only; ocaml/zconv.ml + ocaml/c11/main.ml glue; harness/src/bin/c11.rs",
+        "extraction: ExtrOcamlBasic only; ocaml/zconv.ml + ocaml/c11/main.ml glue (it renders the case as .sym text a second time, independently of the harness, for the "
+        "text front-end of the model: C09's extracted line recogniser + finish + Text2.symtab_of_table with nm = the number inside the name, tg = the prologue size); harness/src/bin/c11.rs",
     ]
     assumptions = ["nom line grammar: the harness goes through SymbolFile::from_bytes; its byte-level model is C09's (Grammar.v, compared with the real parser by C09's check); "
                    "c11_from_bytes composes that model with C11's for every byte string shorter than 2^32-1 bytes that parses - the integer ranges and the INLINE-range count of wf_file "
@@ -508,7 +509,9 @@ class C11(PropBase):
                 "the text's records are wf_file and fill_symbol on the parsed table equals symbolize on them (c11_from_bytes, c11_from_parse; c11_bytes_func_sound states the FUNC/PUBLIC clause directly of the bytes); "
                 "get_inlinee_at_depth is characterised exactly for every FUNC block, overlapping or with duplicate (depth,address) keys: it inspects the greatest kept record in Inlinee's derived order at or below (depth,addr) - unique, "
                 "independent of the algorithm and of record order (c11_inlinee_lookup_exact, c11_inlinee_duplicates) - and Function values and every symbolication are invariant under permuting the INLINE ranges of a FUNC block "
-                "(c11_inline_order_irrelevant; the harness re-parses each generated file with the INLINE ranges permuted and the oracle demands identical tables and callbacks); "
+                "(c11_inline_order_irrelevant; the harness re-parses each generated file with the INLINE ranges permuted, and once more with every FILE / INLINE_ORIGIN line moved to the end, and the oracle demands identical tables and callbacks); "
+                "the extracted model also READS THE TEXT of every generated file (C09's recogniser and finish, then symtab_of_table: Driver.table_of_text, proved equal to symbolize on the text's records in c11_text_driver_correct) and its "
+                "answers from the text must equal those from the records and those of the real code; "
                 "for ALL files a covering FUNC record that intersects no other FUNC record is the one reported (c11_isolated_func_found); one symbolication makes 0 inline lookups without a covering FUNC and otherwise "
                 "1 + chain length <= INLINE ranges of the FUNC + 1, for any fuel (c11_inline_lookups_bounded); the lookup side of the model is regenerated from the Rust source on every run and proved equal "
                 "to the hand-written model (c11_source_tie: operators, operands, constants, table order, keys, loop bounds; structure pinned by templates that abort on unrecognised source). Model and real code (parser + fill_symbol + walk_stack over a module list + Symbolizer::get_symbol_at_address) are run on the same generated files in "
